@@ -86,6 +86,33 @@ def stat_cloud(arg):
                 lag=lag, neighbour=float(np.mean(X[:-1] * X[1:])), alive=int(st.alive.sum()), m4=float(np.mean(X ** 4)))
 
 
+def two_runs(arg):
+    """Two trackers set up one after the other the way two runs (or two legs of a restarted run) set them up, each with
+    its own default generator: the displacements of the same particles in the two runs."""
+    npart, D, dt, dx = arg
+    use_repo()
+    from ladim.ROMS import Grid
+    from ladim.state import State
+    from ladim.timekeeper import TimeKeeper
+    from ladim.tracker import Tracker
+    from harness import lab
+    gs = trk.grid_spec(0, imax=30, jmax=30, land=False, dx=dx, varh=False)
+    gs["dx"] = np.full((30, 30), dx)
+    with lab.scratch() as d:
+        lab.make_grid_forcing(d / "g.nc", [0], imax=30, jmax=30, N=3, h=gs["h"], mask=gs["mask"], dx=gs["dx"])
+        grid = Grid(filename=d / "g.nc")
+    out = []
+    for _leg in range(2):
+        tk = TimeKeeper(start=lab.tstr(0), stop=lab.tstr(10 ** 7), dt=dt)
+        st = State()
+        st.append(X=np.full(npart, 15.0), Y=np.full(npart, 15.0), Z=np.full(npart, 5.0))
+        trkr = Tracker(advection="", diffusion=D, vertdiff=0.0, modules=dict(state=st, time=tk, grid=grid, forcing=trk.PolyForcing([0] * 7, [0] * 7)))
+        trkr.update()
+        out.append(st.X - 15.0)
+    a, b = out
+    return dict(corr=float(np.mean(a * b) / (np.std(a) * np.std(b) + 1e-300)), same=bool(np.array_equal(a, b)), n=npart)
+
+
 def run(ctx: Ctx):
     use_repo()
     cases = make_cases(ctx)
@@ -185,3 +212,12 @@ def run(ctx: Ctx):
             ctx.violation("failing-input", "statistics", dict(seed=seed, particles=npart, steps=nsteps, D=D, dt=dt, dx=dx),
                           dict(broken=bad, moments=m, expected_variance=var, theorem="Ladim.C11.cloud_variance (statistical test of the generator assumption)"),
                           tags=dict(first="statistics"))
+    # ---- two runs in a row (two legs of a restarted simulation): each has its own generator; their random steps are
+    # independent, not a replay (statistical support, 6-sigma band on the correlation)
+    for a in [(40000, (0.05 * 100.0) ** 2 / (2 * 600), 600, 100.0)]:
+        m = two_runs(a)
+        ctx.case("two-runs", list(a), sample=dict(result=m))
+        if m["same"] or abs(m["corr"]) > 6 / math.sqrt(m["n"]):
+            ctx.violation("failing-input", "two-runs", dict(npart=a[0], D=a[1], dt=a[2], dx=a[3]),
+                          dict(correlation_between_the_two_runs=m["corr"], identical=m["same"], band=6 / math.sqrt(m["n"]),
+                               theorem="Ladim.C11.independent (displacements of different steps are independent)"), tags=dict(first="two-runs"))
